@@ -62,12 +62,17 @@ type c12Cfg struct {
 	reqCtx   bool
 	entity   bool
 	endpoint int
+	artifact bool // the AuthnRequest asks for its response over HTTP-Artifact (what samlsp does with UseArtifactResponse)
 }
 
 var c12NIDFormats = []saml.NameIDFormat{"", saml.UnspecifiedNameIDFormat, saml.TransientNameIDFormat, saml.EmailAddressNameIDFormat, saml.PersistentNameIDFormat}
 
 func (c c12Cfg) String() string {
-	return fmt.Sprintf("sign=%v/nid=%d/force=%d/ctx=%v/entity=%v/ep=%s", c.sign, c.nidFmt, c.force, c.reqCtx, c.entity, c12Endpoints[c.endpoint].name)
+	s := fmt.Sprintf("sign=%v/nid=%d/force=%d/ctx=%v/entity=%v/ep=%s", c.sign, c.nidFmt, c.force, c.reqCtx, c.entity, c12Endpoints[c.endpoint].name)
+	if c.artifact {
+		s += "/response-binding=artifact"
+	}
+	return s
 }
 
 func c12SP(cf c12Cfg) (*saml.ServiceProvider, string, string) {
@@ -182,13 +187,13 @@ func runC12(c *core.Ctx) {
 
 	c.Group("configuration-axes")
 	probes := []string{"", "rs", "a b&c=d#e+f%", "é\U0001F600", strings.Repeat("x", 81), "\"'<>"}
-	fields := []lattice.Field{{Name: "sign", N: 2}, {Name: "nid", N: len(c12NIDFormats)}, {Name: "force", N: 3}, {Name: "ctx", N: 2}, {Name: "entity", N: 2}, {Name: "ep", N: len(c12Endpoints)}}
+	fields := []lattice.Field{{Name: "sign", N: 2}, {Name: "nid", N: len(c12NIDFormats)}, {Name: "force", N: 3}, {Name: "ctx", N: 2}, {Name: "entity", N: 2}, {Name: "ep", N: len(c12Endpoints)}, {Name: "respbinding", N: 2}}
 	k := 2
 	if c.Thorough() {
 		k = -1
 	}
 	lattice.Enumerate(fields, k, func(idx []int, dev int) {
-		cf := c12Cfg{sign: idx[0] == 1, nidFmt: idx[1], force: idx[2], reqCtx: idx[3] == 1, entity: idx[4] == 0, endpoint: idx[5]}
+		cf := c12Cfg{sign: idx[0] == 1, nidFmt: idx[1], force: idx[2], reqCtx: idx[3] == 1, entity: idx[4] == 0, endpoint: idx[5], artifact: idx[6] == 1}
 		for _, msg := range c12Messages {
 			for pi, pr := range probes {
 				msg, pr, pi := msg, pr, pi
@@ -202,6 +207,47 @@ func runC12(c *core.Ctx) {
 	})
 
 	c12IDs(c)
+	c12Held(c, getSP)
+}
+
+// c12Held: every ordered pair of message kinds (and a-b-a triples) produced one after the other on one ServiceProvider with different relay
+// states and name IDs; each output is decoded and checked only after all exist, on exactly the value returned.
+func c12Held(c *core.Ctx, getSP func(c12Cfg) (*saml.ServiceProvider, string, string)) {
+	c.Group("outputs-checked-after-later-calls")
+	for _, sign := range []bool{false, true} {
+		for a := range c12Messages {
+			for b := range c12Messages {
+				for _, triple := range []bool{false, true} {
+					sign, a, b, triple := sign, a, b, triple
+					seq := []int{a, b}
+					if triple {
+						seq = append(seq, a)
+					}
+					var names []string
+					for _, i := range seq {
+						names = append(names, c12Messages[i])
+					}
+					key := fmt.Sprintf("held/sign=%v/%s", sign, strings.Join(names, ">"))
+					c.Case(key, func(t *core.T) {
+						t.NonTrivial()
+						cf := c12Cfg{sign: sign, entity: true}
+						var later []func()
+						for step, i := range seq {
+							c12OneHold(t, getSP, cf, c12Messages[i], fmt.Sprintf("relay-%d-%s", step, strings.Repeat("x", 3*step)), key, &later)
+						}
+						for step, chk := range later {
+							before := t.Failed()
+							chk()
+							if !before && t.Failed() {
+								t.Fail("C12/held-output/"+c12Messages[seq[step]]+"/altered-by-a-later-call", "%s: output %d (%s) no longer decodes to its own message after the later ones were produced", key, step+1, c12Messages[seq[step]])
+								return
+							}
+						}
+					})
+				}
+			}
+		}
+	}
 }
 
 func truncStr(s string, n int) string {
@@ -213,8 +259,18 @@ func truncStr(s string, n int) string {
 
 // c12One builds one message through the public API and checks its wire form.
 func c12One(t *core.T, getSP func(c12Cfg) (*saml.ServiceProvider, string, string), cf c12Cfg, msg, s, key string) {
+	c12OneHold(t, getSP, cf, msg, s, key, nil)
+}
+
+// c12OneHold is c12One with the checks optionally postponed (hold != nil): the message is produced now, the closure that decodes and
+// checks exactly the returned value is appended to *hold.
+func c12OneHold(t *core.T, getSP func(c12Cfg) (*saml.ServiceProvider, string, string), cf c12Cfg, msg, s, key string, hold *[]func()) {
 	if !utf8.ValidString(s) {
 		return
+	}
+	resultBinding := saml.HTTPPostBinding
+	if cf.artifact {
+		resultBinding = saml.HTTPArtifactBinding
 	}
 	sp, sso, slo := getSP(cf)
 	rec := harness.NewCtr("c12" + key)
@@ -241,12 +297,12 @@ func c12One(t *core.T, getSP func(c12Cfg) (*saml.ServiceProvider, string, string
 	_, p := guard(func() error {
 		switch msg {
 		case "authn-redirect":
-			ar, err = sp.MakeAuthenticationRequest(sp.GetSSOBindingLocation(saml.HTTPRedirectBinding), saml.HTTPRedirectBinding, saml.HTTPPostBinding)
+			ar, err = sp.MakeAuthenticationRequest(sp.GetSSOBindingLocation(saml.HTTPRedirectBinding), saml.HTTPRedirectBinding, resultBinding)
 			if err == nil {
 				u, err = ar.Redirect(relay, sp)
 			}
 		case "authn-post":
-			ar, err = sp.MakeAuthenticationRequest(sp.GetSSOBindingLocation(saml.HTTPPostBinding), saml.HTTPPostBinding, saml.HTTPPostBinding)
+			ar, err = sp.MakeAuthenticationRequest(sp.GetSSOBindingLocation(saml.HTTPPostBinding), saml.HTTPPostBinding, resultBinding)
 			if err == nil {
 				page = ar.Post(relay)
 			}
@@ -264,225 +320,232 @@ func c12One(t *core.T, getSP func(c12Cfg) (*saml.ServiceProvider, string, string
 	t.Impl(1)
 	t.Compared()
 	fk := func(k string) string { return "C12/" + msg + "/" + k }
-	if p != "" {
-		t.Fail(fk("panic@"+p[strings.LastIndex(p, "@")+1:]), "constructor panicked: %s", p)
-		return
-	}
-	if err != nil {
-		t.Fail(fk("constructor-error"), "constructor failed for relay state %+q: %v", relay, err)
-		return
-	}
-	t.Input("relay_state", fmt.Sprintf("%+q", relay))
-	var payload []byte
-	if redirect {
-		t.Input("url", u.String())
-		// re-parse what is actually emitted
-		u2, perr := url.Parse(u.String())
-		if perr != nil {
-			t.Fail(fk("url-unparseable"), "emitted URL does not parse: %v", perr)
+	check := func() {
+		if p != "" {
+			t.Fail(fk("panic@"+p[strings.LastIndex(p, "@")+1:]), "constructor panicked: %s", p)
 			return
 		}
-		if u2.Fragment != "" || strings.Contains(u.String(), "#") {
-			t.Fail(fk("fragment-introduced"), "emitted URL carries a fragment %q: relay state truncated the query", u2.Fragment)
-		}
-		base, _ := url.Parse(endpoint)
-		if u2.Scheme != base.Scheme || u2.Host != base.Host || u2.Path != base.Path {
-			t.Fail(fk("endpoint-changed"), "URL %s does not target endpoint %s", u2.String(), endpoint)
-		}
-		keys, vals, qerr := splitQuery(u2.RawQuery)
-		if qerr != nil {
-			t.Fail(fk("query-not-decodable"), "%v (query %q)", qerr, truncStr(u2.RawQuery, 300))
+		if err != nil {
+			t.Fail(fk("constructor-error"), "constructor failed for relay state %+q: %v", relay, err)
 			return
 		}
-		pk, pv, _ := splitQuery(base.RawQuery)
-		count := map[string]int{}
-		var relayGot *string
-		for i, kk := range keys {
-			count[kk]++
-			switch kk {
-			case param:
-				payload = []byte(vals[i])
-			case "RelayState":
-				v := vals[i]
-				relayGot = &v
+		t.Input("relay_state", fmt.Sprintf("%+q", relay))
+		var payload []byte
+		if redirect {
+			t.Input("url", u.String())
+			// re-parse what is actually emitted
+			u2, perr := url.Parse(u.String())
+			if perr != nil {
+				t.Fail(fk("url-unparseable"), "emitted URL does not parse: %v", perr)
+				return
 			}
-		}
-		if count[param] != 1 {
-			t.Fail(fk("message-parameter-count"), "%d %s parameters in %q", count[param], param, truncStr(u2.RawQuery, 300))
-			return
-		}
-		if relay != "" {
-			if count["RelayState"] != 1 || relayGot == nil {
-				t.Fail(fk("relaystate-parameter-count"), "%d RelayState parameters for relay state %+q", count["RelayState"], relay)
-			} else if *relayGot != relay {
-				t.Fail(fk("relaystate-altered"), "RelayState %+q decodes to %+q", relay, *relayGot)
+			if u2.Fragment != "" || strings.Contains(u.String(), "#") {
+				t.Fail(fk("fragment-introduced"), "emitted URL carries a fragment %q: relay state truncated the query", u2.Fragment)
 			}
-		} else if count["RelayState"] > 1 {
-			t.Fail(fk("relaystate-parameter-count"), "%d RelayState parameters for an empty relay state", count["RelayState"])
-		}
-		// pre-existing parameters preserved, nothing else introduced
-		allowed := map[string]bool{param: true, "RelayState": true, "SigAlg": true, "Signature": true}
-		for i, kk := range pk {
-			found := false
-			for j, k2 := range keys {
-				if k2 == kk && vals[j] == pv[i] {
-					found = true
+			base, _ := url.Parse(endpoint)
+			if u2.Scheme != base.Scheme || u2.Host != base.Host || u2.Path != base.Path {
+				t.Fail(fk("endpoint-changed"), "URL %s does not target endpoint %s", u2.String(), endpoint)
+			}
+			keys, vals, qerr := splitQuery(u2.RawQuery)
+			if qerr != nil {
+				t.Fail(fk("query-not-decodable"), "%v (query %q)", qerr, truncStr(u2.RawQuery, 300))
+				return
+			}
+			pk, pv, _ := splitQuery(base.RawQuery)
+			count := map[string]int{}
+			var relayGot *string
+			for i, kk := range keys {
+				count[kk]++
+				switch kk {
+				case param:
+					payload = []byte(vals[i])
+				case "RelayState":
+					v := vals[i]
+					relayGot = &v
 				}
 			}
-			if !found {
-				t.Fail(fk("endpoint-parameter-lost"), "pre-existing endpoint parameter %q=%q is missing from %q", kk, pv[i], truncStr(u2.RawQuery, 300))
+			if count[param] != 1 {
+				t.Fail(fk("message-parameter-count"), "%d %s parameters in %q", count[param], param, truncStr(u2.RawQuery, 300))
+				return
 			}
-			allowed[kk] = true
-		}
-		for _, kk := range keys {
-			if !allowed[kk] {
-				t.Fail(fk("parameter-injected"), "unexpected parameter %q in the emitted query", kk)
+			if relay != "" {
+				if count["RelayState"] != 1 || relayGot == nil {
+					t.Fail(fk("relaystate-parameter-count"), "%d RelayState parameters for relay state %+q", count["RelayState"], relay)
+				} else if *relayGot != relay {
+					t.Fail(fk("relaystate-altered"), "RelayState %+q decodes to %+q", relay, *relayGot)
+				}
+			} else if count["RelayState"] > 1 {
+				t.Fail(fk("relaystate-parameter-count"), "%d RelayState parameters for an empty relay state", count["RelayState"])
 			}
-		}
-		if cf.sign && kind == "authn" && (count["SigAlg"] != 1 || count["Signature"] != 1) {
-			t.Fail(fk("signature-parameters"), "signing configured: SigAlg x%d, Signature x%d", count["SigAlg"], count["Signature"])
-		}
-		raw, derr := base64.StdEncoding.DecodeString(string(payload))
-		if derr != nil {
-			t.Fail(fk("payload-not-base64"), "%v", derr)
-			return
-		}
-		payload, derr = inflate(raw)
-		if derr != nil {
-			t.Fail(fk("payload-not-deflate"), "%v", derr)
-			return
-		}
-	} else {
-		f, ferr := htmlform.Parse(page)
-		if ferr != nil {
-			t.Fail(fk("form-unparseable"), "%v", ferr)
-			return
-		}
-		if f.NForms != 1 || len(f.Dup) > 0 {
-			t.Fail(fk("form-structure"), "%d forms, duplicated fields %v", f.NForms, f.Dup)
-		}
-		if f.Action != endpoint && !(kind == "logoutresp" && c12Endpoints[cf.endpoint].name == "resploc" && f.Action == c12RespLoc) {
-			t.Fail(fk("form-action"), "form action %q, endpoint %q", f.Action, endpoint)
-		}
-		// a browser normalises newlines in form values (HTML tokenizer: CRLF/CR -> LF; form submission: -> CRLF), which the
-		// library cannot influence: compare modulo that normalisation on the POST binding
-		if formNL(f.Fields["RelayState"]) != formNL(relay) {
-			t.Fail(fk("relaystate-altered"), "RelayState field %+q, want %+q", f.Fields["RelayState"], relay)
-		}
-		raw, derr := base64.StdEncoding.DecodeString(f.Fields[param])
-		if derr != nil {
-			t.Fail(fk("payload-not-base64"), "%v", derr)
-			return
-		}
-		payload = raw
-	}
-	doc := etree.NewDocument()
-	if err := doc.ReadFromBytes(payload); err != nil || doc.Root() == nil {
-		t.Fail(fk("payload-not-xml"), "payload is not well-formed XML: %v", err)
-		return
-	}
-	var probe struct{ XMLName xml.Name }
-	if err := xml.Unmarshal(payload, &probe); err != nil {
-		t.Fail(fk("payload-not-xml"), "encoding/xml rejects the payload: %v", err)
-		return
-	}
-	r := doc.Root()
-	wantTag := map[string]string{"authn": "AuthnRequest", "logoutreq": "LogoutRequest", "logoutresp": "LogoutResponse"}[kind]
-	if r.Tag != wantTag || r.NamespaceURI() != samlgen.NSProtocol {
-		t.Fail(fk("wrong-message"), "root is %s", r.Tag)
-		return
-	}
-	wantIssuer := samlgen.SPEntity
-	if !cf.entity {
-		wantIssuer = samlgen.SPMetaURL
-	}
-	if got := textOf(one(r, samlgen.NSAssertion, "Issuer")); got != wantIssuer {
-		t.Fail(fk("issuer"), "Issuer %q, configured %q", got, wantIssuer)
-	}
-	if got := r.SelectAttrValue("Destination", ""); got != endpoint && !(kind == "logoutresp" && c12Endpoints[cf.endpoint].name == "resploc" && got == c12RespLoc) {
-		t.Fail(fk("destination"), "Destination %q, endpoint %q", got, endpoint)
-	}
-	id := r.SelectAttrValue("ID", "")
-	if id == "" {
-		t.Fail(fk("no-id"), "message has no ID")
-	}
-	switch kind {
-	case "authn":
-		if ar != nil && id != ar.ID {
-			t.Fail(fk("id-mismatch"), "wire ID %q, constructor returned %q", id, ar.ID)
-		}
-		if got := r.SelectAttrValue("AssertionConsumerServiceURL", ""); got != samlgen.SPAcs {
-			t.Fail(fk("acs-url"), "AssertionConsumerServiceURL %q", got)
-		}
-		// an explicitly configured format must be emitted; what "unset" and "unspecified" map to is the library's choice
-		if f := c12NIDFormats[cf.nidFmt]; f != "" && f != saml.UnspecifiedNameIDFormat {
-			pol := one(r, samlgen.NSProtocol, "NameIDPolicy")
-			gotFmt := ""
-			if pol != nil {
-				gotFmt = pol.SelectAttrValue("Format", "")
+			// pre-existing parameters preserved, nothing else introduced
+			allowed := map[string]bool{param: true, "RelayState": true, "SigAlg": true, "Signature": true}
+			for i, kk := range pk {
+				found := false
+				for j, k2 := range keys {
+					if k2 == kk && vals[j] == pv[i] {
+						found = true
+					}
+				}
+				if !found {
+					t.Fail(fk("endpoint-parameter-lost"), "pre-existing endpoint parameter %q=%q is missing from %q", kk, pv[i], truncStr(u2.RawQuery, 300))
+				}
+				allowed[kk] = true
 			}
-			if gotFmt != string(f) {
-				t.Fail(fk("nameid-policy"), "NameIDPolicy Format %q, configured %q", gotFmt, f)
+			for _, kk := range keys {
+				if !allowed[kk] {
+					t.Fail(fk("parameter-injected"), "unexpected parameter %q in the emitted query", kk)
+				}
 			}
-		}
-		fa := r.SelectAttrValue("ForceAuthn", "absent")
-		if cf.force == 1 && fa != "true" {
-			t.Fail(fk("forceauthn"), "ForceAuthn %q although configured true", fa)
-		}
-		if cf.force != 1 && fa == "true" {
-			t.Fail(fk("forceauthn"), "ForceAuthn true although not configured")
-		}
-		if (one(r, samlgen.NSProtocol, "RequestedAuthnContext") != nil) != cf.reqCtx {
-			t.Fail(fk("requested-authn-context"), "RequestedAuthnContext present=%v configured=%v", !cf.reqCtx, cf.reqCtx)
-		}
-		// this library's IdP must parse and validate it and see the same relay state
-		md := spMetadataFor(sp)
-		idp := harness.NewIDP("idp1", harness.SPRegistry{md.EntityID: md}, nil)
-		idp.SSOURL = harness.MustURL(endpoint)
-		var hr = httptest.NewRequest("GET", "http://x/", nil)
-		if redirect {
-			if strings.ContainsAny(u.String(), " \r\n\t") {
-				return // not a usable request line; already reported above as url-unparseable / relaystate-altered
+			if cf.sign && kind == "authn" && (count["SigAlg"] != 1 || count["Signature"] != 1) {
+				t.Fail(fk("signature-parameters"), "signing configured: SigAlg x%d, Signature x%d", count["SigAlg"], count["Signature"])
 			}
-			hr = httptest.NewRequest("GET", u.String(), nil)
+			raw, derr := base64.StdEncoding.DecodeString(string(payload))
+			if derr != nil {
+				t.Fail(fk("payload-not-base64"), "%v", derr)
+				return
+			}
+			payload, derr = inflate(raw)
+			if derr != nil {
+				t.Fail(fk("payload-not-deflate"), "%v", derr)
+				return
+			}
 		} else {
-			f, _ := htmlform.Parse(page)
-			hr = httptest.NewRequest("POST", f.Action, strings.NewReader(url.Values{"SAMLRequest": {f.Fields["SAMLRequest"]}, "RelayState": {f.Fields["RelayState"]}}.Encode()))
-			hr.Header.Set("Content-Type", "application/x-www-form-urlencoded")
-		}
-		var ireq *saml.IdpAuthnRequest
-		var ierr error
-		_, p := guard(func() error {
-			ireq, ierr = saml.NewIdpAuthnRequest(idp, hr)
-			if ierr == nil {
-				ierr = ireq.Validate()
+			f, ferr := htmlform.Parse(page)
+			if ferr != nil {
+				t.Fail(fk("form-unparseable"), "%v", ferr)
+				return
 			}
-			return nil
-		})
-		t.Impl(1)
-		if p != "" {
-			t.Fail(fk("idp-panic@"+p[strings.LastIndex(p, "@")+1:]), "IdP panicked on the SP's own request: %s", p)
-		} else if ierr != nil {
-			t.Fail(fk("idp-rejects-sp-request"), "this library's IdP refuses the request the SP emitted (relay %+q): %v", relay, ierr)
-		} else if ireq.RelayState != relay && (redirect || formNL(ireq.RelayState) != formNL(relay)) {
-			t.Fail(fk("idp-sees-other-relaystate"), "IdP sees relay state %+q, SP sent %+q", ireq.RelayState, relay)
-		} else if ireq.Request.ID != id {
-			t.Fail(fk("idp-sees-other-id"), "IdP sees request ID %q, SP returned %q", ireq.Request.ID, id)
+			if f.NForms != 1 || len(f.Dup) > 0 {
+				t.Fail(fk("form-structure"), "%d forms, duplicated fields %v", f.NForms, f.Dup)
+			}
+			if f.Action != endpoint && !(kind == "logoutresp" && c12Endpoints[cf.endpoint].name == "resploc" && f.Action == c12RespLoc) {
+				t.Fail(fk("form-action"), "form action %q, endpoint %q", f.Action, endpoint)
+			}
+			// a browser normalises newlines in form values (HTML tokenizer: CRLF/CR -> LF; form submission: -> CRLF), which the
+			// library cannot influence: compare modulo that normalisation on the POST binding
+			if formNL(f.Fields["RelayState"]) != formNL(relay) {
+				t.Fail(fk("relaystate-altered"), "RelayState field %+q, want %+q", f.Fields["RelayState"], relay)
+			}
+			raw, derr := base64.StdEncoding.DecodeString(f.Fields[param])
+			if derr != nil {
+				t.Fail(fk("payload-not-base64"), "%v", derr)
+				return
+			}
+			payload = raw
 		}
-	case "logoutreq":
-		if got := textOf(one(r, samlgen.NSAssertion, "NameID")); got != nameID {
-			t.Fail(fk("nameid-altered"), "NameID %+q decodes to %+q", nameID, got)
+		doc := etree.NewDocument()
+		if err := doc.ReadFromBytes(payload); err != nil || doc.Root() == nil {
+			t.Fail(fk("payload-not-xml"), "payload is not well-formed XML: %v", err)
+			return
 		}
-	case "logoutresp":
-		if got := r.SelectAttrValue("InResponseTo", ""); got != givenID {
-			t.Fail(fk("inresponseto"), "InResponseTo %q, given %q", got, givenID)
+		var probe struct{ XMLName xml.Name }
+		if err := xml.Unmarshal(payload, &probe); err != nil {
+			t.Fail(fk("payload-not-xml"), "encoding/xml rejects the payload: %v", err)
+			return
 		}
+		r := doc.Root()
+		wantTag := map[string]string{"authn": "AuthnRequest", "logoutreq": "LogoutRequest", "logoutresp": "LogoutResponse"}[kind]
+		if r.Tag != wantTag || r.NamespaceURI() != samlgen.NSProtocol {
+			t.Fail(fk("wrong-message"), "root is %s", r.Tag)
+			return
+		}
+		wantIssuer := samlgen.SPEntity
+		if !cf.entity {
+			wantIssuer = samlgen.SPMetaURL
+		}
+		if got := textOf(one(r, samlgen.NSAssertion, "Issuer")); got != wantIssuer {
+			t.Fail(fk("issuer"), "Issuer %q, configured %q", got, wantIssuer)
+		}
+		if got := r.SelectAttrValue("Destination", ""); got != endpoint && !(kind == "logoutresp" && c12Endpoints[cf.endpoint].name == "resploc" && got == c12RespLoc) {
+			t.Fail(fk("destination"), "Destination %q, endpoint %q", got, endpoint)
+		}
+		id := r.SelectAttrValue("ID", "")
+		if id == "" {
+			t.Fail(fk("no-id"), "message has no ID")
+		}
+		switch kind {
+		case "authn":
+			if ar != nil && id != ar.ID {
+				t.Fail(fk("id-mismatch"), "wire ID %q, constructor returned %q", id, ar.ID)
+			}
+			if got := r.SelectAttrValue("AssertionConsumerServiceURL", ""); got != samlgen.SPAcs {
+				t.Fail(fk("acs-url"), "AssertionConsumerServiceURL %q", got)
+			}
+			// an explicitly configured format must be emitted; what "unset" and "unspecified" map to is the library's choice
+			if f := c12NIDFormats[cf.nidFmt]; f != "" && f != saml.UnspecifiedNameIDFormat {
+				pol := one(r, samlgen.NSProtocol, "NameIDPolicy")
+				gotFmt := ""
+				if pol != nil {
+					gotFmt = pol.SelectAttrValue("Format", "")
+				}
+				if gotFmt != string(f) {
+					t.Fail(fk("nameid-policy"), "NameIDPolicy Format %q, configured %q", gotFmt, f)
+				}
+			}
+			fa := r.SelectAttrValue("ForceAuthn", "absent")
+			if cf.force == 1 && fa != "true" {
+				t.Fail(fk("forceauthn"), "ForceAuthn %q although configured true", fa)
+			}
+			if cf.force != 1 && fa == "true" {
+				t.Fail(fk("forceauthn"), "ForceAuthn true although not configured")
+			}
+			if (one(r, samlgen.NSProtocol, "RequestedAuthnContext") != nil) != cf.reqCtx {
+				t.Fail(fk("requested-authn-context"), "RequestedAuthnContext present=%v configured=%v", !cf.reqCtx, cf.reqCtx)
+			}
+			// this library's IdP must parse and validate it and see the same relay state
+			md := spMetadataFor(sp)
+			idp := harness.NewIDP("idp1", harness.SPRegistry{md.EntityID: md}, nil)
+			idp.SSOURL = harness.MustURL(endpoint)
+			var hr = httptest.NewRequest("GET", "http://x/", nil)
+			if redirect {
+				if strings.ContainsAny(u.String(), " \r\n\t") {
+					return // not a usable request line; already reported above as url-unparseable / relaystate-altered
+				}
+				hr = httptest.NewRequest("GET", u.String(), nil)
+			} else {
+				f, _ := htmlform.Parse(page)
+				hr = httptest.NewRequest("POST", f.Action, strings.NewReader(url.Values{"SAMLRequest": {f.Fields["SAMLRequest"]}, "RelayState": {f.Fields["RelayState"]}}.Encode()))
+				hr.Header.Set("Content-Type", "application/x-www-form-urlencoded")
+			}
+			var ireq *saml.IdpAuthnRequest
+			var ierr error
+			_, p := guard(func() error {
+				ireq, ierr = saml.NewIdpAuthnRequest(idp, hr)
+				if ierr == nil {
+					ierr = ireq.Validate()
+				}
+				return nil
+			})
+			t.Impl(1)
+			if p != "" {
+				t.Fail(fk("idp-panic@"+p[strings.LastIndex(p, "@")+1:]), "IdP panicked on the SP's own request: %s", p)
+			} else if ierr != nil {
+				t.Fail(fk("idp-rejects-sp-request"), "this library's IdP refuses the request the SP emitted (relay %+q): %v", relay, ierr)
+			} else if ireq.RelayState != relay && (redirect || formNL(ireq.RelayState) != formNL(relay)) {
+				t.Fail(fk("idp-sees-other-relaystate"), "IdP sees relay state %+q, SP sent %+q", ireq.RelayState, relay)
+			} else if ireq.Request.ID != id {
+				t.Fail(fk("idp-sees-other-id"), "IdP sees request ID %q, SP returned %q", ireq.Request.ID, id)
+			}
+		case "logoutreq":
+			if got := textOf(one(r, samlgen.NSAssertion, "NameID")); got != nameID {
+				t.Fail(fk("nameid-altered"), "NameID %+q decodes to %+q", nameID, got)
+			}
+		case "logoutresp":
+			if got := r.SelectAttrValue("InResponseTo", ""); got != givenID {
+				t.Fail(fk("inresponseto"), "InResponseTo %q, given %q", got, givenID)
+			}
+		}
+		if len(rec.Drawn) < 16 {
+			t.Fail(fk("id-entropy"), "only %d bytes were drawn from saml.RandReader while creating the message", len(rec.Drawn))
+		}
+		t.Outcome("ok")
+		t.Sample(map[string]interface{}{"case": key})
 	}
-	if len(rec.Drawn) < 16 {
-		t.Fail(fk("id-entropy"), "only %d bytes were drawn from saml.RandReader while creating the message", len(rec.Drawn))
+	if hold != nil {
+		*hold = append(*hold, check)
+		return
 	}
-	t.Outcome("ok")
-	t.Sample(map[string]interface{}{"case": key})
+	check()
 }
 
 // formNL applies the HTML form-submission newline normalisation (every CRLF, CR or LF becomes CRLF).
